@@ -1,5 +1,5 @@
 """U4 - when to renew (acmed/src/certificate.rs).  Serves C06; hook-data builders serve C05/C10/C07."""
-from unit import Unit, FnSpec
+from unit import Unit, FnSpec, fmt_to_cat
 import storage
 
 CRT = "acmed/src/certificate.rs"
@@ -57,24 +57,115 @@ def contracts():
             && (dur(self.random_early_renew) == 0 ==> dur(d) == sat_sub(crate::acme_common::crypto::cert_expires_ns(c), dur(self.renew_delay)))
             && dur(d) + dur(self.random_early_renew) >= sat_sub(crate::acme_common::crypto::cert_expires_ns(c), dur(self.renew_delay)))), //@C06.never_late_never_negative
 """, rewrites=[ZERO])
+    # ---- C05 / C10 / C07: which configured entry solves an authorization, and the data handed to the hooks
+    c["get_identifier_from_str"] = FnSpec(ret="r", sig="""
+    ensures
+        // the wildcard authorization for a name is solved with the entry configured for "*.<name>", any other one with the
+        // entry configured for the name itself; only when no such entry exists, the prefix-insensitive lookup applies
+        match r { Ok(d) => chosen(self.identifiers@, identifier@, wildcard) == Some(d),
+                  Err(_) => chosen(self.identifiers@, identifier@, wildcard) is None }, //@C05.wildcard_authorization_uses_the_wildcard_entry
+""", loops={1: "    invariant exact_name@ == crate::certificate::exact_name(identifier_0@, wildcard), identifier@ == identifier_0@, forall|j: int| 0 <= j < it1.index@ ==> self.identifiers@[j].value@ != exact_name@,",
+            2: "    invariant identifier@ == identifier_0@, forall|j: int| 0 <= j < self.identifiers@.len() ==> self.identifiers@[j].value@ != crate::certificate::exact_name(identifier_0@, wildcard),"
+               "\n        forall|j: int| 0 <= j < it2.index@ ==> !legacy_match(self.identifiers@[j], identifier_0@),"},
+        body_start="let ghost identifier_0 = identifier;", attrs="#[verifier::loop_isolation(false)]",
+        at=[("before", "self.identifiers.iter()", 1, "it1:"), ("before", "self.identifiers.iter()", 2, "it2:"),
+            ("before_stmt", "return Ok(d.clone())", 1, """proof {
+                let e = crate::certificate::exact_name(identifier_0@, wildcard);
+                assert(first_exact(self.identifiers@, e, it1.index@));
+                lemma_first_exact_unique(self.identifiers@, e);
+                let ch = choose|i: int| first_exact(self.identifiers@, e, i);
+                assert(ch == it1.index@);
+                assert(*d == self.identifiers@[it1.index@ as int]);
+                assert(chosen(self.identifiers@, identifier_0@, wildcard) == Some(self.identifiers@[it1.index@ as int]));
+            }"""),
+            ("before_stmt", "return Ok(d.clone())", 2, """proof {
+                let e = crate::certificate::exact_name(identifier_0@, wildcard);
+                assert(first_legacy(self.identifiers@, identifier_0@, it2.index@));
+                lemma_first_legacy_unique(self.identifiers@, identifier_0@);
+                assert(!(exists|i: int| first_exact(self.identifiers@, e, i)));
+                let ch = choose|i: int| first_legacy(self.identifiers@, identifier_0@, i);
+                assert(ch == it2.index@);
+                assert(*d == self.identifiers@[it2.index@ as int]);
+            }"""),
+            ("before_stmt", "for d in self.identifiers.iter()", 2, "proof { reveal_strlit(\"*.\"); }"),
+            ("before_stmt", "Err(", 1, "proof { lemma_first_legacy_unique(self.identifiers@, identifier_0@); lemma_first_exact_unique(self.identifiers@, crate::certificate::exact_name(identifier_0@, wildcard)); }")],
+        rewrites=[("T-FMT", r"format!\((?P<f>\"\*\.\{identifier\}\")\)", lambda m: fmt_to_cat(m.group("f"), "crate::venv::cat2")),
+                  ("T-STR", r"d\.value\.trim_start_matches\(\"\*\.\"\)\.to_string\(\)", 'crate::venv::trim_start_matches_str(&d.value, "*.")')])
+    c["call_challenge_hooks"] = FnSpec(ret="r", ghost=True, sig="""
+    ensures final(w).clock == old(w).clock, final(w).admissions == old(w).admissions, final(w).net == old(w).net,
+        final(w).fs.files == old(w).fs.files, final(w).fs.modes == old(w).fs.modes,
+        r matches Ok(t) ==> chosen(self.identifiers@, identifier@, wildcard) matches Some(id) && ({
+            // the documented template variables
+            &&& t.0.identifier@ == id.value@ && t.0.challenge@ == challenge_name(id.challenge)
+            &&& t.0.file_name@ == file_name@ && t.0.proof@ == proof@
+            &&& t.0.raw_proof@ == (match raw_proof { Some(s) => s@, None => Seq::<char>::empty() }) && !t.0.is_clean_hook
+            // environment: identifier over certificate (which already holds the global one) over the daemon's own
+            &&& envmap(t.0.env) == proc_env().union_prefer_right(envmap(self.env)).union_prefer_right(envmap(id.env))
+            // the hooks of the configured challenge type are run, and the matching clean type is handed back
+            &&& t.1 == clean_type(id.challenge)
+            &&& final(w).fs.events == old(w).fs.events.push(FsEvent::Hook { ty: crate::hooks::hook_type_id(start_type(id.challenge)), data: crate::hooks::hook_data_id(t.0) })
+        }), //@C05.challenge_hooks_of_the_configured_type_get_the_proof,C10.env_identifier_over_certificate_over_daemon
+        r is Err ==> final(w).fs.events == old(w).fs.events || exists|e: FsEvent| final(w).fs.events == old(w).fs.events.push(e),
+""", rewrites=[("T-MAP", r"env: HashMap::new\(\)", "env: crate::venv::new_map()")],
+        at=[("before_stmt", "Ok((hook_data, hook_type.1))", 1, """
+        proof {
+            let p = proc_env(); let c = envmap(self.env); let i = envmap(identifier.env);
+            assert(p.union_prefer_right(p.union_prefer_right(Map::<Seq<char>, Seq<char>>::empty()).union_prefer_right(c)).union_prefer_right(i)
+                   =~= p.union_prefer_right(c).union_prefer_right(i));
+        }""")])
+    c["call_challenge_hooks_clean"] = FnSpec(ret="r", ghost=True, sig="""
+    ensures final(w).clock == old(w).clock, final(w).admissions == old(w).admissions, final(w).net == old(w).net,
+        final(w).fs.files == old(w).fs.files, final(w).fs.modes == old(w).fs.modes,
+        final(w).fs.events == old(w).fs.events.push(FsEvent::Hook { ty: crate::hooks::hook_type_id(hook_type), data: crate::hooks::hook_data_id(*data) }), //@C10.clean_hooks_get_the_recorded_data
+""")
+    c["call_post_operation_hooks"] = FnSpec(ret="r", ghost=True, sig="""
+    ensures final(w).clock == old(w).clock, final(w).admissions == old(w).admissions, final(w).net == old(w).net,
+        final(w).fs.files == old(w).fs.files, final(w).fs.modes == old(w).fs.modes,
+        r is Ok ==> exists|d: PostOperationHookData| d.status@ == status@ && d.is_success == is_success
+            && d.identifiers@.len() == self.identifiers@.len()
+            && (forall|i: int| 0 <= i < d.identifiers@.len() ==> (#[trigger] d.identifiers@[i])@ == self.identifiers@[i].value@)
+            && envmap(d.env) == proc_env().union_prefer_right(envmap(self.env))
+            && final(w).fs.events == old(w).fs.events.push(FsEvent::Hook { ty: crate::hooks::hook_type_id(HookType::PostOperation), data: crate::hooks::hook_data_id(d) }), //@C07.post_operation_data_reports_status,C10.post_operation_hook_data
+""", rewrites=[("T-MAP", r"env: HashMap::new\(\)", "env: crate::venv::new_map()"),
+               ("T-ITER", r"self\s*\.identifiers\s*\.iter\(\)\s*\.map\(\|d\| d\.value\.to_owned\(\)\)\s*\.collect::<Vec<String>>\(\)", "crate::certificate::collect_values(&self.identifiers)")],
+        at=[("before_stmt", "Ok(())", 1, """
+        proof {
+            let p = proc_env(); let c = envmap(self.env);
+            assert(p.union_prefer_right(Map::<Seq<char>, Seq<char>>::empty()).union_prefer_right(c) =~= p.union_prefer_right(c));
+        }""")])
     return c
 
 
 def build():
     u = Unit("schedule", "acmed")
-    u.prelude("err", "log", "stdx", "time", "world", "fs", "rand", "titer3")
+    u.prelude("err", "log", "stdx", "time", "world", "fs", "rand", "titer3", "env_shims")
     u.ghost_call("certificate_files_exists", quals=("",))
     u.ghost_call("get_certificate", quals=("",))
+    u.ghost_call("call", quals=("hooks",))
     u.drop_derives = {"Debug", "Eq", "Hash", "PartialEq", "Clone", "Copy"}
     u.module("config", "")
     u.take("acmed/src/config.rs", "HookType", "config", keep_derives=("Eq", "Hash", "PartialEq", "Clone"))
     u.module("logs", "")
     u.take("acmed/src/logs.rs", "HasLogger", "logs")
-    u.module("hooks", "use crate::*;\npub use crate::config::HookType;\nuse std::collections::{HashMap, HashSet};")
+    u.module("hooks", "use crate::*;\npub use crate::config::HookType;\nuse crate::logs::HasLogger;\nuse crate::acme_common::error::Error;\n"
+             "use crate::vpath::PathBuf;\nuse crate::venv::*;\nuse std::collections::{HashMap, HashSet};")
     u.take("acmed/src/hooks.rs", "HookStdin", "hooks")
     u.take("acmed/src/hooks.rs", "Hook", "hooks")
+    u.take("acmed/src/hooks.rs", "ChallengeHookData", "hooks")
+    u.take("acmed/src/hooks.rs", "PostOperationHookData", "hooks")
+    u.raw("hooks", HOOKS_STUB, trusted=True)
     u.module("acme_proto", "")
     u.take("acmed/src/acme_proto.rs", "Challenge", "acme_proto")
+    u.raw("acme_proto", """
+pub open spec fn challenge_name(c: Challenge) -> Seq<char> {
+    match c { Challenge::Http01 => "http-01"@, Challenge::Dns01 => "dns-01"@, Challenge::TlsAlpn01 => "tls-alpn-01"@ }
+}
+impl std::fmt::Display for Challenge { #[verifier::external_body] fn fmt(&self, f: &mut std::fmt::Formatter) -> std::fmt::Result { unimplemented!() } }
+// the Display table of Challenge (acme_proto.rs) - assumed here
+#[verifier::external_body]
+pub broadcast proof fn axiom_challenge_to_string(c: &Challenge, r: String)
+    ensures #[trigger] vstd::string::to_string_from_display_ensures::<Challenge>(c, r) ==> r@ == challenge_name(*c) {}
+""", trusted=True)
     u.module("identifier", "use crate::*;\nuse crate::acme_proto::Challenge;\nuse std::collections::HashMap;")
     u.take("acmed/src/identifier.rs", "IdentifierType", "identifier")
     u.take("acmed/src/identifier.rs", "Identifier", "identifier")
@@ -91,7 +182,7 @@ def build():
              "use crate::identifier::{Identifier, IdentifierType};\nuse crate::logs::HasLogger;\n"
              "use crate::storage::{certificate_files_exists, get_certificate, FileManager, FileType, file_path_spec};\n"
              "use crate::acme_common::crypto::{HashFunction, KeyType, SubjectAttribute, X509Certificate, strset};\n"
-             "use crate::acme_common::error::Error;\nuse crate::rand::{thread_rng};\n"
+             "use crate::acme_common::error::Error;\nuse crate::rand::{thread_rng};\nuse crate::hooks::{ChallengeHookData, PostOperationHookData, HookEnvData};\nuse crate::venv::*;\n"
              "use std::collections::{HashMap, HashSet};\nuse std::time::Duration;")
     u.take(CRT, "Certificate", "certificate")
     u.verify(CRT, "impl HasLogger for Certificate", "certificate", props=["C06"])
@@ -99,14 +190,124 @@ def build():
     c = contracts()
     for name in ["renew_in", "has_missing_identifiers", "schedule_renewal"]:
         u.verify(CRT, f"Certificate::{name}", "certificate", props=["C06"], fns={name: c[name]})
+    sc2 = storage.contracts()
+    u.stub("acmed/src/storage.rs", "get_certificate_path", "storage", fns={"get_certificate_path": sc2["get_certificate_path"]})
+    u.stub("acmed/src/storage.rs", "get_keypair_path", "storage", fns={"get_keypair_path": sc2["get_keypair_path"]})
+    u.verify(CRT, "Certificate::get_identifier_from_str", "certificate", props=["C05"], fns={"get_identifier_from_str": c["get_identifier_from_str"]})
+    u.verify(CRT, "Certificate::call_challenge_hooks", "certificate", props=["C05", "C10"], fns={"call_challenge_hooks": c["call_challenge_hooks"]})
+    u.verify(CRT, "Certificate::call_challenge_hooks_clean", "certificate", props=["C05", "C10"], fns={"call_challenge_hooks_clean": c["call_challenge_hooks_clean"]})
+    u.verify(CRT, "Certificate::call_post_operation_hooks", "certificate", props=["C07", "C10"], fns={"call_post_operation_hooks": c["call_post_operation_hooks"]})
     return u
 
+
+HOOKS_STUB = """
+// hooks.rs is under contract in unit `hooks`; here what certificate.rs needs of it
+pub trait HookEnvData { fn set_env(&mut self, env: &HashMap<String, String>); }
+pub open spec fn hook_type_id(t: HookType) -> int {
+    match t {
+        HookType::FilePreCreate => 0, HookType::FilePostCreate => 1, HookType::FilePreEdit => 2, HookType::FilePostEdit => 3,
+        HookType::ChallengeHttp01 => 4, HookType::ChallengeHttp01Clean => 5, HookType::ChallengeDns01 => 6,
+        HookType::ChallengeDns01Clean => 7, HookType::ChallengeTlsAlpn01 => 8, HookType::ChallengeTlsAlpn01Clean => 9,
+        HookType::PostOperation => 10,
+    }
+}
+pub uninterp spec fn hook_data_id<T>(d: T) -> int;
+// set_env (macro imple_hook_data_env!): only the environment changes, with the documented precedence (assumed here)
+impl HookEnvData for ChallengeHookData {
+    #[verifier::external_body]
+    fn set_env(&mut self, env: &HashMap<String, String>)
+        ensures envmap(final(self).env) == set_env_spec(envmap(old(self).env), envmap(*env)),
+            final(self).identifier == old(self).identifier, final(self).identifier_tls_alpn == old(self).identifier_tls_alpn,
+            final(self).challenge == old(self).challenge, final(self).file_name == old(self).file_name, final(self).proof == old(self).proof,
+            final(self).raw_proof == old(self).raw_proof, final(self).is_clean_hook == old(self).is_clean_hook,
+    { unimplemented!() }
+}
+impl HookEnvData for PostOperationHookData {
+    #[verifier::external_body]
+    fn set_env(&mut self, env: &HashMap<String, String>)
+        ensures envmap(final(self).env) == set_env_spec(envmap(old(self).env), envmap(*env)),
+            final(self).identifiers == old(self).identifiers, final(self).key_type == old(self).key_type, final(self).status == old(self).status,
+            final(self).is_success == old(self).is_success, final(self).certificate_path == old(self).certificate_path,
+            final(self).private_key_path == old(self).private_key_path,
+    { unimplemented!() }
+}
+#[verifier::external_body]
+pub fn call<L: HasLogger, T: HookEnvData>(logger: &L, hooks: &[Hook], data: &T, hook_type: HookType, Tracked(w): Tracked<&mut World>) -> (r: Result<(), Error>)
+    ensures final(w).clock == old(w).clock, final(w).admissions == old(w).admissions, final(w).net == old(w).net,
+        final(w).fs.files == old(w).fs.files, final(w).fs.modes == old(w).fs.modes,
+        final(w).fs.events == old(w).fs.events.push(FsEvent::Hook { ty: hook_type_id(hook_type), data: hook_data_id(*data) }),
+{ unimplemented!() }
+"""
 
 STORAGE_SPEC = """
 pub uninterp spec fn file_path_spec(fm: FileManager, t: FileType) -> Seq<char>;
 """
 
 SPEC = """
+broadcast use {vstd::string::to_string_from_display_ensures_for_str, crate::stdax2::axiom_to_string_string, crate::acme_proto::axiom_challenge_to_string};
+use crate::acme_proto::challenge_name;
+// ---- which configured entry an authorization belongs to
+pub open spec fn exact_name(identifier: Seq<char>, wildcard: bool) -> Seq<char> { if wildcard { "*."@ + identifier } else { identifier } }
+pub open spec fn first_exact(ids: Seq<Identifier>, name: Seq<char>, i: int) -> bool {
+    0 <= i < ids.len() && ids[i].value@ == name && forall|j: int| 0 <= j < i ==> ids[j].value@ != name
+}
+pub proof fn lemma_first_exact_unique(ids: Seq<Identifier>, name: Seq<char>)
+    ensures forall|i: int, j: int| first_exact(ids, name, i) && first_exact(ids, name, j) ==> i == j
+{
+    assert forall|i: int, j: int| first_exact(ids, name, i) && first_exact(ids, name, j) implies i == j by {
+        if i < j { assert(ids[i].value@ != name); } else if j < i { assert(ids[j].value@ != name); }
+    }
+}
+pub open spec fn legacy_match(d: Identifier, identifier: Seq<char>) -> bool {
+    (d.id_type is Dns && crate::venv::trim_start(d.value@, "*."@) == identifier) || (d.id_type is Ip && d.value@ == identifier)
+}
+pub open spec fn first_legacy(ids: Seq<Identifier>, identifier: Seq<char>, i: int) -> bool {
+    0 <= i < ids.len() && legacy_match(ids[i], identifier) && forall|j: int| 0 <= j < i ==> !legacy_match(ids[j], identifier)
+}
+pub proof fn lemma_first_legacy_unique(ids: Seq<Identifier>, identifier: Seq<char>)
+    ensures forall|i: int, j: int| first_legacy(ids, identifier, i) && first_legacy(ids, identifier, j) ==> i == j
+{
+    assert forall|i: int, j: int| first_legacy(ids, identifier, i) && first_legacy(ids, identifier, j) implies i == j by {
+        if i < j { assert(!legacy_match(ids[i], identifier)); } else if j < i { assert(!legacy_match(ids[j], identifier)); }
+    }
+}
+// the configured entry an authorization is solved with
+pub open spec fn chosen(ids: Seq<Identifier>, identifier: Seq<char>, wildcard: bool) -> Option<Identifier> {
+    if exists|i: int| first_exact(ids, exact_name(identifier, wildcard), i) {
+        Some(ids[choose|i: int| first_exact(ids, exact_name(identifier, wildcard), i)])
+    } else if exists|i: int| first_legacy(ids, identifier, i) {
+        Some(ids[choose|i: int| first_legacy(ids, identifier, i)])
+    } else { None }
+}
+// RFC 8555 section 8 / RFC 8737 names, and the hook types that go with each challenge type
+pub open spec fn start_type(c: Challenge) -> HookType {
+    match c { Challenge::Http01 => HookType::ChallengeHttp01, Challenge::Dns01 => HookType::ChallengeDns01, Challenge::TlsAlpn01 => HookType::ChallengeTlsAlpn01 }
+}
+pub open spec fn clean_type(c: Challenge) -> HookType {
+    match c { Challenge::Http01 => HookType::ChallengeHttp01Clean, Challenge::Dns01 => HookType::ChallengeDns01Clean, Challenge::TlsAlpn01 => HookType::ChallengeTlsAlpn01Clean }
+}
+// V.iter().map(|d| d.value.to_owned()).collect::<Vec<String>>()  (rule T-ITER): verified, a plain loop
+pub fn collect_values(ids: &Vec<Identifier>) -> (r: Vec<String>)
+    ensures r@.len() == ids@.len(), forall|i: int| 0 <= i < ids@.len() ==> (#[trigger] r@[i])@ == ids@[i].value@,
+{
+    let mut out: Vec<String> = Vec::new();
+    let mut i = 0;
+    while i < ids.len()
+        invariant i <= ids@.len(), out@.len() == i, forall|j: int| 0 <= j < i ==> (#[trigger] out@[j])@ == ids@[j].value@,
+        decreases ids@.len() - i,
+    {
+        out.push(ids[i].value.to_owned());
+        i += 1;
+    }
+    out
+}
+// #[derive(Clone)] of Identifier / Challenge (dropped by T-ATTR), restated: a clone equals its source (trusted for the struct)
+impl Clone for Identifier { #[verifier::external_body] fn clone(&self) -> (r: Self) ensures r == *self { unimplemented!() } }
+impl Identifier {
+    // identifier.rs::get_tls_alpn_name: reverse-DNS form for IP identifiers (iterator chain through format!; X: not under contract)
+    #[verifier::external_body]
+    pub fn get_tls_alpn_name(&self) -> Result<String, Error> { unimplemented!() }
+}
 pub open spec fn sat_sub(a: nat, b: nat) -> nat { if a >= b { (a - b) as nat } else { 0 } }
 // the configured identifier values, as a set of texts
 pub open spec fn val_fn() -> spec_fn(Identifier) -> Seq<char> { |d: Identifier| d.value@ }
